@@ -94,6 +94,17 @@ func findBracketGuard(c *Ctx) (*guardSite, string) {
 		}
 		var site ssa.Instruction
 		allInstrs(fn, func(in ssa.Instruction) {
+			// "(" + child + ")" written as a concatenation
+			if bo, isBO := in.(*ssa.BinOp); isBO && bo.Op == token.ADD {
+				if cs, ok := constString(bo.Y); ok && cs == ")" {
+					if inner, ok := bo.X.(*ssa.BinOp); ok && inner.Op == token.ADD {
+						if os, ok := constString(inner.X); ok && os == "(" {
+							site = in
+						}
+					}
+				}
+				return
+			}
 			call, ok := in.(*ssa.Call)
 			if !ok || callName(call) != "fmt.Sprintf" {
 				return
